@@ -51,6 +51,17 @@ static void pid(double id)
     else printf("%llx:%llx", (unsigned long long)b, (unsigned long long)o);
 }
 
+/* ADF_Database_Version into buffers of the documented sizes (ADF_VERSION_LENGTH / ADF_DATE_LENGTH + 1) */
+static void version(double root)
+{
+    char ver[ADF_VERSION_LENGTH + 1], cd[ADF_DATE_LENGTH + 1], md[ADF_DATE_LENGTH + 1];
+    int err;
+    ADF_Database_Version(root, ver, cd, md, &err);
+    if (err != NO_ERROR) printf("VER err %d\n", err);
+    else { printf("VER "); hxs(ver); printf("\n"); }
+    fflush(stdout);
+}
+
 static long fuel;
 static int stop;
 #define DATA_CAP 65536
@@ -200,6 +211,7 @@ int main(int argc, char **argv)
         ADF_Database_Open(argv[2], "READ_ONLY", "NATIVE", &root, &err);
         if (err != NO_ERROR) { printf("open err %d\nEND\n", err); return 0; }
         printf("open ok "); pid(root); printf("\n"); fflush(stdout);
+        version(root);
         visit(root, 0);
         printf("END\n"); fflush(stdout);
         ADF_Database_Close(root, &err);
@@ -215,6 +227,7 @@ int main(int argc, char **argv)
         ADF_Database_Open(argv[3], "READ_ONLY", "NATIVE", &root, &err);
         if (err != NO_ERROR) { printf("open err %d\nEND\n", err); return 0; }
         printf("open ok "); pid(root); printf("\n"); fflush(stdout);
+        version(root);
         visit(root, 0);
         printf("END\n"); fflush(stdout);
         ADF_Database_Close(root, &err);
